@@ -274,6 +274,8 @@ func runC01(c *Check) {
 	c.ruleTruncationKeepsForkPoint("R16")
 	c.rulePendingSyncOnlyWhenPeerHasNoMore("R17")
 	c.rulePopMovesLastSavedHash("R18")
+	c.ruleSavedHashMovesOnlyWithPop("R19")
+	c.ruleLastHashGuards("R20")
 	c.ruleFilledRequestsGoOut("R13", "handlers.(*HeadersHandler).Handle", "spynode.(*Node).processBlocks")
 }
 
@@ -624,6 +626,7 @@ func runC08(c *Check) {
 	}
 	c.ruleSpliceRemovesOne("R9", 1, "spynode")
 	c.ruleRelevantOnlyByMatch("R10")
+	c.ruleEveryOutputParsed("R11")
 
 	// ---- R4 who may write
 	nW := 0
